@@ -456,16 +456,11 @@ impl Node {
 
         /// Returns all nodes ids that contains the given state parameter
         pub fn filter(&self, states: &Vec<i32>) -> Vec<i32> {
+            let wanted: std::collections::HashSet<i32> = states.iter().cloned().collect();
             let mut filtered_nodes = vec![];
             for (_,n) in self.nodes.iter() {
-                if states.len() == 0 {
+                if states.len() == 0 || wanted.contains(&n.get_state()) {
                     filtered_nodes.push(n.get_id() as i32);
-                } else {
-                    for state in states.iter() {
-                       if n.get_state() == *state {
-                            filtered_nodes.push(n.get_id() as i32);
-                        }
-                    }
                 }
             }
             filtered_nodes
